@@ -40,12 +40,9 @@ TAGS = {
 }
 CORR = (1, 2, 3, 4)
 ORACLE = (11, 12, 13, 14, 15, 16, 17, 18, 19)
-# guard tag -> (finding id, oracle tags it explains)
+# guard tag -> (finding id, oracle tags it explains); 51-54 and 62 belonged to findings that are fixed in /repo
+# (3342873, decea79, 2e21c7f, e1c4639, 6f6df8b): a recurrence has no guard tag any more and is a VIOLATION
 GUARDS = {
-    51: ('C08-INST-TRANSIT-DEPOT', (11,)),
-    52: ('C08-INST-STALE-SYSTEM', (12, 14, 15, 16, 19)),
-    53: ('C08-SEQ-NO-DEPOT', (11,)),
-    54: ('C08-SEQ-TRANSIT-DEPOT', (11,)),
     55: ('C08-ZO-TRANSIT-DEPOT', (12, 13)),
     56: ('C08-FO-ZO-TRANSITS', (12, 13)),
     57: ('C08-FO-SEQ-TRANSITS-NOOP', (14,)),
@@ -53,7 +50,6 @@ GUARDS = {
     59: ('C08-NODEPOT-MDT-CLASH', (11,)),
     60: ('C08-TRANSIT-STALE-LAG', (12, 13, 15, 16, 19)),
     61: ('C08-SINGLE-TRANSIT', (12, 13, 14, 16, 19)),
-    62: ('C08-PERIPH-STRING-ORDER', (12, 13, 14, 17)),
     63: ('C08-REMOVE-PERIPH-KRATES', (11,)),
     64: ('C08-DROPS-BIOAVAILABILITY', (15, 17)),
     # environment condition of the statement layers (not a conjunct of the Coq guard, see Check.v env_tags)
@@ -524,6 +520,10 @@ def run_specs(ctx, specs, label, quiet=False):
 
 def finding_probes(ctx):
     """Replay the stored witness of every open finding on the real code."""
+    byid = {}
+    for f in ctx.findings:          # known_findings.d (staged updates) comes last and replaces by id
+        byid[f['id']] = f
+    ctx.findings = list(byid.values())
     opens = [f for f in ctx.findings if f.get('status') == 'open']
     if not opens:
         return
